@@ -40,7 +40,7 @@ theorem cross_entropy_is_nll_log_softmax (x : NDArray α) (labels : List Nat) (h
 theorem mean_is_sum_div_count (x : NDArray α) (ax : Axes) (keep : Bool) (axes : List Nat)
     (h : ax.norm x.shape.length = some axes) :
     meanForward x ax keep = (sumForward x ax keep).map (fun s => s.map (· / (((axes.map (fun k => x.shape.getD k 0)).foldr (· * ·) 1 : Nat) : α))) := by
-  simp [meanForward, sumForward, Np.sum, h]
+  simp [meanForward, sumForward, Np.sum, h, Proofs.Adjoint.normRed_of_norm h]
 
 /-- **flatten = reshape** to the merged shape -/
 theorem flatten_is_reshape (x : NDArray α) (s e : Int) :
@@ -380,7 +380,7 @@ theorem mean_grad_is_sum_div_grad {F : Type} [Field F] (a y : NDArray F) (ax : A
 
 example : ∃ y axes, meanForward (⟨[2, 2], [1, 2, 3, 4]⟩ : NDArray ℝ) (.one 1) false = some y ∧
     (Axes.one 1).norm (⟨[2, 2], [1, 2, 3, 4]⟩ : NDArray ℝ).shape.length = some axes := by
-  simp [meanForward, Np.sum, Axes.norm, normAxis]
+  simp [meanForward, Np.sum, Axes.norm, Axes.normRed, normAxis]
 
 end Grad
 
